@@ -319,6 +319,13 @@ func ListToFunc(s *Scope, list List, depth int) Object {
 				if strings.EqualFold("lambda", string(sym)) {
 					lambdaDef := ListToFunc(s, ta, depth+1)
 					lc := s.Eval(lambdaDef, depth).(*Lambda)
+					// The converted form replaces the list in the code and is
+					// evaluated again by the next loop iteration or call so
+					// it must not keep the scope of this evaluation as its
+					// closure. Without a closure the lambda is called in the
+					// scope of each evaluation of the form, which is the
+					// lexical scope of a lambda form.
+					lc.Closure = nil
 					return &Dynamic{
 						Function: Function{
 							Self: lc,
